@@ -80,4 +80,20 @@ func (*ExprCondition).Evaluate
   requires ec.compound != nil ==> forall(i, 0, len(ec.compound.parts), fcOK(ec.compound.parts[i]))
   modifies *
   ensures true
+
+func matchesLikePattern
+  props C13
+  option safety
+  ensures empty-pattern-matches-only-empty-text: len(pattern) == 0 ==> (result <==> len(text) == 0)
+  ensures empty-text-needs-all-percent: len(text) == 0 ==> (result <==> forall(i, 0, len(pattern), pattern[i] == 37))
+  loop 1 invariant pi <= len(pattern)
+  loop 2 invariant pi <= len(pattern)
+  loop 1 invariant 0 <= ti && 0 <= pi && -1 <= starIdx && 0 <= matchIdx && matchIdx <= ti && starIdx < pi
+  loop 1 invariant len(pattern) == 0 ==> pi == 0 && starIdx == -1 && ti == 0
+  loop 1 invariant len(text) == 0 ==> pi == 0
+  loop 2 invariant 0 <= pi && (len(text) == 0 ==> forall(i, 0, pi, pattern[i] == 37))
+
+func isNilValue
+  props C13
+  ensures untyped-nil-is-null: v == nil ==> result
 @*/
